@@ -14,7 +14,7 @@ ID = "C10"
 TITLE = ("Freshly built layers already satisfy their monotonicity and bound "
          "constraints")
 RULE = ("Hypothesis draws a layer kind and a valid configuration. Lattice "
-        "(~50%): rank 1-4, sizes 2-4 (thorough rank <= 5, sizes <= 6), units "
+        "(~45%): rank 1-4, sizes 2-4 (thorough rank <= 5, sizes <= 6), units "
         "1-3, monotonicity subsets, unimodalities and joint unimodalities "
         "(incl. one group covering all features), the all-unconstrained case, "
         "bounds {none, min, max, both} incl. negative ranges, output_max <= 0 "
@@ -23,11 +23,11 @@ RULE = ("Hypothesis draws a layer kind and a valid configuration. Lattice "
         "RandomMonotonicInitializer, default} used by name or built with an "
         "explicit init_min/init_max through create_kernel_initializer / "
         "LinearInitializer / RandomMonotonicInitializer, a TF/NumPy seed. "
-        "PWLCalibration (~22%): 2-8 keypoints (thorough 16), equal_heights / "
+        "PWLCalibration (~25%): 2-8 keypoints (thorough 16), equal_heights / "
         "equal_slopes, monotonicity -1/0/1, convexity, cyclic, clamps, "
-        "one/two-sided and zero-width bounds. KroneckerFactoredLattice (~15%): "
+        "one/two-sided and zero-width bounds. KroneckerFactoredLattice (~22%): "
         "props/c07 configurations, default or explicit initialisation range. "
-        "CategoricalCalibration (~13%): 2-6 buckets, uniform / constant, "
+        "CategoricalCalibration (~8%): 2-6 buckets, uniform / constant, "
         "bounds, monotonic pairs. The layer is built, its fresh weights are "
         "compared with the float64 shape documented for the initializer, with "
         "the layer's monotonicity and bound constraints, assert_constraints() "
@@ -37,7 +37,7 @@ RULE = ("Hypothesis draws a layer kind and a valid configuration. Lattice "
         "explicit initialisation range and its fresh weights are not all "
         "equal; distinct by SHA-1 of the case.")
 NT_FLOOR = 0.6
-BUDGET = {"quick": 600, "thorough": 8000}
+BUDGET = {"quick": 500, "thorough": 5000}
 ASSUMPTIONS = [
     "assert_constraints() uses an absolute eps=1e-6; when it fails on fresh "
     "weights it is called again with eps=2e-5*S and only that second failure "
@@ -45,7 +45,12 @@ ASSUMPTIONS = [
     "'*:assert-default-eps-rounding')",
     "explicit init_min/init_max are drawn inside the layer's output bounds "
     "(KroneckerFactoredLattice: inside [0, 1] when the layer is bounded, "
-    "non-negative otherwise)"]
+    "non-negative otherwise)",
+    "the Lattice default initializer's documented fallback to Keras "
+    "random_uniform (one joint-unimodality group over all features) is "
+    "generated; its bound violations carry the narrow signature {kind: "
+    "bounds, layer: lattice, init: default, keras_random_uniform: true} "
+    "(known finding)"]
 TECHNIQUE = ("property-based testing (Hypothesis): generated layer "
              "configurations, initializers and seeds against float64 shape "
              "references written from the initializer documentation")
@@ -65,9 +70,12 @@ LEVEL_NOTE = ("Tolerance 2e-5*S (S=max(1,|weights|,|bounds|)) for weight "
               "bounded as stated in the rule. Trusted: TensorFlow random "
               "number generation seeded per case.")
 
-# Regions in which a fresh layer is known (by probing) to break the statement
-# are generated unless this variable is set; it exists so that the mutant audit
-# can run against a quiet baseline while those findings are undecided.
+# One region in which a fresh layer breaks the statement is reported with a
+# narrow signature (known finding): the Lattice default initializer falls back
+# to Keras random_uniform when one joint-unimodality group covers all features
+# and then ignores the output bounds.  Setting this variable keeps the
+# generator out of it (used to audit mutants against a quiet baseline before
+# the finding was recorded); it is never set by ./check.
 _SKIP_SUSPECTS = bool(os.environ.get("VERIF_C10_SKIP_SUSPECTS"))
 
 OMIN_POOL = [-10.0, -1.0, 0.0, 0.5, 1.0, 2.5, 100.0]
@@ -218,11 +226,6 @@ def _cat_case(draw, tier):
   pairs = draw(S.dag_pairs(nb, max_edges=3, allow_duplicates=False)) if draw(
       st.integers(0, 2)) == 0 else []
   init = draw(st.sampled_from(["uniform", "uniform", "constant"]))
-  if _SKIP_SUSPECTS:
-    if omin is None or omax is None:
-      omin = omax = None
-    if pairs and (init == "uniform" or omin is None):
-      pairs = []
   return {"kind": "cat", "num_buckets": nb,
           "units": draw(st.sampled_from([1, 1, 2, 3])), "omin": omin,
           "omax": omax, "pairs": pairs, "init_id": init,
